@@ -191,8 +191,8 @@ def gen_parametric(rng):
     form = rng.randint(0, 4)
     R = []   # (lhs, [(kind, sym, param)], cond)
     if form == 0:
-        text = 'start: item::0\nitem::_: "a" item::incr(_) | tail::_\ntail::_: "b" %%if %s\n' % c
-        R = [("start", [("N", "item", "0")], None), ("item", [("T", "a", None), ("N", "item", "incr(_)")], None), ("item", [("N", "tail", "_")], None), ("tail", [("T", "b", None)], c)]
+        text = 'start: item::0\nitem::_: "a" item::incr([0:3]) | tail::_\ntail::_: "b" %%if %s\n' % c
+        R = [("start", [("N", "item", "0")], None), ("item", [("T", "a", None), ("N", "item", "incr([0:3])")], None), ("item", [("N", "tail", "_")], None), ("tail", [("T", "b", None)], c)]
         par = {"item", "tail"}
     elif form == 1:
         nb = rng.randint(2, 3)
